@@ -437,6 +437,30 @@ Section Pos.
     | _ => True
     end.
 
+  (** grammars built from the public combinators only (no internal [GRecoverWith]) satisfy it *)
+  Fixpoint public_g (g : G) : bool :=
+    match g with
+    | GRecoverWith _ _ _ => false
+    | GLeft a b | GRight a b | GBoth a b | GEither a b
+    | GImplies a b | GAntecedent a b | GConsequent a b | GCondImplies a _ b
+    | GRepeatUntil _ _ a b | GRepeatCountUntil _ _ a b | GIntersperse _ _ a b | GIntersperseCount _ _ a b => public_g a && public_g b
+    | GCenter a b d | GIntersperseUntil _ _ a b d | GIntersperseCountUntil _ _ a b d => public_g a && public_g b && public_g d
+    | GMap _ a | GDiscard a | GText a | GSpanned a | GSub a | GMaybe a | GRequireIf _ a | GCond _ a
+    | GFilterWith _ a | GUnfiltered a | GRaw a | GUnrec a | GStabilize a | GCtxPush _ a | GSomeOf a | GUpTo a _
+    | GRecover _ a | GRecoverDef _ a | GRecoverDelayed _ a | GRecoverDefDelayed _ a
+    | GRepeat _ _ a | GRepeatCount _ _ a | GIntersperseDef _ _ a _
+    | GBracket _ a _ _ | GBracketDef _ a _ _ | GBracketIdx _ a _ _ | GBracketDefIdx _ a _ _
+    | GList a _ _ | GListB _ _ a _ _ | GListDef a _ _ | GListBDef _ _ a _ _ => public_g a
+    | _ => true
+    end.
+
+  Lemma public_gok g : public_g g = true -> gok g.
+  Proof.
+    induction g; cbn [public_g gok]; intros H; try discriminate H; try exact I;
+      repeat match goal with Hc : _ && _ = true |- _ => apply andb_prop in Hc; destruct Hc end;
+      repeat split; auto.
+  Qed.
+
   Section Step.
     Variable f : nat.
     Hypothesis IH : forall g l c s, gok g -> PosOK l -> log_ok s -> cn (run f g l c s).
@@ -684,6 +708,10 @@ Section Pos.
     intros Hg Hl E. pose proof (run_pos fuel g lx c (mkstore [] []) Hg Hl (Forall_nil _)) as H. rewrite E in H.
     destruct H as [Hlog [Hp Hv]]. split; [exact Hp|]. split; [exact Hv|exact Hlog].
   Qed.
+
+  (** for grammars of the public combinators the side condition is discharged *)
+  Corollary run_pos_public fuel g lx c st : public_g g = true -> PosOK lx -> log_ok st -> cn (run fuel g lx c st).
+  Proof using Htab Ht. intros Hg. apply run_pos. apply public_gok. exact Hg. Qed.
 
   Corollary run_error_positions_canonical fuel g lx c e st' : gok g -> PosOK lx ->
     run fuel g lx c (mkstore [] []) = (RErr e, st') -> err_ok e /\ Forall err_ok (log st').
